@@ -3384,14 +3384,20 @@ impl Manager {
     /// only listens to once the reconfiguration has been taken. A command
     /// that arrives while a unit still sits in its start-up
     /// `process_until` is consumed without an answer, so it is sent again
-    /// every few milliseconds. `false` if `max` went by first. Add-only;
+    /// every few milliseconds. `Err(unit)` if `max` went by first. Add-only;
     /// changes nothing.
-    pub async fn verif_settle(&self, max: Duration) -> bool {
+    pub async fn verif_settle(&self, max: Duration) -> Result<(), String> {
         let t0 = Instant::now();
-        for (_name, (_unit_type, agent)) in &self.running_units {
+        for (name, (_unit_type, agent)) in &self.running_units {
             loop {
                 let report = UpstreamLinkReport::new();
-                let _ = agent.report_links(report.clone()).await;
+                // (the command queue is bounded: do not wait for room in it
+                // longer than for an answer)
+                let _ = tokio::time::timeout(
+                    Duration::from_millis(5),
+                    agent.report_links(report.clone()),
+                )
+                .await;
                 let sent = Instant::now();
                 while !report.ready()
                     && sent.elapsed() < Duration::from_millis(5)
@@ -3402,10 +3408,10 @@ impl Manager {
                     break;
                 }
                 if t0.elapsed() > max {
-                    return false;
+                    return Err(name.clone());
                 }
             }
         }
-        true
+        Ok(())
     }
 }
